@@ -361,4 +361,79 @@ func C03(r *h.Run) {
 		}
 	}
 
+	c03LargeMessages(r)
+}
+
+// c03LargeMessages: messages around the sizes at which the library treats buffers differently
+// (maxRecycleBufferSize, 8 MiB; discardLimit, 4 MiB), as the LAST thing in a body, delivered in
+// one piece, in two pieces and in 1 MiB pieces, with EOF on a separate read and together with
+// the last bytes (what net/http does for bodies with a Content-Length): one outcome.
+func c03LargeMessages(r *h.Run) {
+	sizes := []int{8 << 20, 8<<20 + 1, 4<<20 + 1}
+	if r.Thorough() {
+		sizes = append(sizes, 8<<20-1, 9<<20, 4<<20, 16<<20+3)
+	}
+	brief := func(obs []obsItem) []string {
+		out := make([]string, len(obs))
+		for i, o := range obs {
+			if o.Kind == "msg" {
+				out[i] = fmt.Sprintf("msg of %d bytes", len(o.B))
+			} else {
+				out[i] = o.String()
+			}
+		}
+		return out
+	}
+	for si, size := range sizes {
+		proto := []string{"grpc", "grpcweb", "connect"}[si%3]
+		cfg := envCfg{Proto: proto}
+		big := bytes.Repeat([]byte{byte(0x61 + si)}, size)
+		for _, side := range []string{"client", "handler"} {
+			body := append(h.Frame(0, []byte("first")), h.Frame(0, big)...)
+			hdr, term, trailer := responseParts(cfg)
+			if side == "client" && proto != "connect" {
+				body = append(body, term...) // (nil for gRPC: the message is the last thing in the body)
+			}
+			run := func(chunks [][]byte, fin h.FinKind) ([]obsItem, any) {
+				if side == "client" {
+					return clientStreamRecv(cfg, 200, hdr, h.NewChunkBody(chunks, fin), trailer)
+				}
+				obs, _, _, p := serveStream(cfg, h.NewChunkBody(chunks, fin))
+				return obs, p
+			}
+			whole, p0 := run([][]byte{body}, h.FinCleanEOF)
+			var mib [][]byte
+			for off := 0; off < len(body); off += 1 << 20 {
+				end := off + 1<<20
+				if end > len(body) {
+					end = len(body)
+				}
+				mib = append(mib, body[off:end])
+			}
+			for di, chunks := range [][][]byte{{body}, {body[:len(body)-1], body[len(body)-1:]}, mib} {
+				for _, fin := range []h.FinKind{h.FinCleanEOF, h.FinEOFWithData} {
+					if di == 0 && fin == h.FinCleanEOF {
+						continue
+					}
+					in := map[string]any{"side": side, "proto": proto, "body": fmt.Sprintf("envelope of 5 bytes, then an envelope of %d bytes%s", size, map[bool]string{true: ", then the end-of-stream marker", false: ", nothing after it"}[side == "client" && proto == "grpcweb"]),
+						"chunk_sizes": chunkSizes(chunks), "fin": fin.Coq()}
+					r.Eval("large_last_message", fmt.Sprint(side, proto, size, di, fin))
+					got, p := run(chunks, fin)
+					if p0 != nil || p != nil {
+						r.Fail(h.Failure{Key: "envelope/panic", Family: "large_last_message", What: fmt.Sprint("panic: ", p0, p), Input: in})
+						continue
+					}
+					r.Sample("large_last_message", map[string]any{"in": in, "observed": brief(got)})
+					if !obsEqual(whole, got) {
+						key := "segmentation/handler-outcome-differs"
+						if side == "client" {
+							key = "segmentation/client-outcome-differs"
+						}
+						r.Fail(h.Failure{Key: key, Family: "large_last_message", What: "outcome under fragmentation / EOF placement differs from the outcome of the same bytes in one piece with EOF on a separate read (large last message)",
+							Input: in, Expected: brief(whole), Actual: brief(got)})
+					}
+				}
+			}
+		}
+	}
 }
